@@ -285,7 +285,7 @@ class TransportDescriptorParser:
         parameters = dict()
         for keyword_string in keyword_strings:
             q = keyword_string.split('=', maxsplit=2)
-            if len(q) < 2:
+            if len(q) != 2:
                 raise QMI_TransportDescriptorException('Keyword parameter is not in form of foo=bar')
             k, v = q
             if k in self._keywords.keys():
